@@ -14,8 +14,9 @@
                                  (proof/C07_History.v; holds for [] and is preserved by every query — C07_no_history)
     The comparators of the engine: C07_comparators (selected attributes equal, hcount host >= pattern). *)
 From Coq Require Import List NArith Bool.
-From SK Require Import lib.Tok lib.LGraph lib.Mono model.C07_Model
-  proof.C07_Spec proof.C07_History proof.C07_Filters proof.C07_Main proof.C07_WL proof.C07_Relabel proof.C07_Final proof.C07_Extra proof.C07_Final2.
+From SK Require Import lib.Tok lib.LGraph lib.Mono lib.Reach model.C07_Model model.C07_MCCS
+  proof.C07_Spec proof.C07_History proof.C07_Filters proof.C07_Main proof.C07_WL proof.C07_Relabel proof.C07_Final proof.C07_Extra proof.C07_Final2
+  proof.C07_Entry proof.C07_MCCS.
 Import ListNotations.
 
 (** the premises are satisfiable, and the instances the correspondence run evaluates ([run] = [run_from has_mono (monos_g true)])
@@ -241,3 +242,141 @@ Theorem C07_edit_uncached :
     run_from vf2b enum (set_nth gs i g') es qs c = map (fun q => fst (step vf2b enum (set_nth gs i g') es q [])) qs.
 Proof. exact edit_uncached. Qed.
 Print Assumptions C07_edit_uncached.
+
+(** ---------------------------------------------------------------- round 5: the option layer, returned mappings, intermediate values *)
+
+(** (3, as called) The three boolean subgraph entry points — SubgraphMatch.subgraph_isomorphism (FnSM), the facade
+    SubgraphMatch.is_subgraph (FnIS), graph_morphism.subgraph_isomorphism (FnGM) — with their options AS THE CALLER PASSES THEM
+    ([sub_opts]: parallel name / default lists that the code zips, edge attribute None / "" / a name, check_type as an interned string
+    with code 0 = "induced", comparators possibly None, back-end name) answer a boolean whenever [entry_ok] (an edge attribute other
+    than None for the two SubgraphMatch functions; back-end "nx" for the facade), and that boolean is the definition of induced
+    (check_type == "induced") resp. monomorphic (ANY other string) containment of child in parent under
+      the label selection   zip(names, defaults)                                    [o_sel],
+      the comparators       the given ones, eq for None; none at all for the facade  [entry_nc / entry_ec],
+      the edge attribute    the given name; SubgraphMatch compares "" like any other (absent) name, graph_morphism switches edge
+                            matching off for "" and None                              [entry_em]
+    with use_filter on or off. *)
+Theorem C07_entry_spec :
+  forall vf2b, vf2b_contract vf2b ->
+  forall fn o child parent, gwf child -> gwf parent -> entry_ok fn o ->
+    exists b, sub_entry vf2b fn o child parent = RB b /\
+      (b = true <-> contained (o_induced o) (nm_subc (entry_nc fn o) (o_sel o)) (em_subc (entry_ec fn o) (entry_em fn o)) parent child).
+Proof. exact entry_spec. Qed.
+Print Assumptions C07_entry_spec.
+
+(** (5, as called) use_filter on / off gives the same answer at every entry point for all option values that answer at all *)
+Theorem C07_entry_filter_transparent :
+  forall vf2b, vf2b_contract vf2b ->
+  forall fn o child parent, gwf child -> gwf parent -> entry_ok fn o ->
+    sub_entry vf2b fn (set_filter o true) child parent = sub_entry vf2b fn (set_filter o false) child parent.
+Proof. exact entry_filter_transparent. Qed.
+Print Assumptions C07_entry_filter_transparent.
+
+(** the facade forwards correctly: is_subgraph(backend="nx") IS subgraph_isomorphism with default comparators for every value of
+    the remaining options (any VF2); every other back-end name raises — ImportError (2) for the uninstalled "mod" (1), ValueError (3)
+    otherwise — and never answers *)
+Theorem C07_is_subgraph_facade :
+  forall vf2b o pattern host,
+    sub_entry vf2b FnIS o pattern host =
+    if N.eqb (o_backend o) 0 then sub_entry vf2b FnSM (no_cmps o) pattern host
+    else RErr (if N.eqb (o_backend o) 1 then 2 else 3)%N.
+Proof. exact is_subgraph_facade. Qed.
+Print Assumptions C07_is_subgraph_facade.
+
+(** check_type: every string other than exactly "induced" behaves like "monomorphism" (any VF2, any options) *)
+Theorem C07_check_type_spellings :
+  forall vf2b fn o ct child parent, ct <> 0%N ->
+    sub_entry vf2b fn (set_ctype o ct) child parent = sub_entry vf2b fn (set_ctype o 1%N) child parent.
+Proof. exact check_type_spellings. Qed.
+Print Assumptions C07_check_type_spellings.
+
+(** the intermediate value the correspondence compares for every boolean subgraph query (was a GraphMatcher built — i.e. did the
+    pre-filter let the call through —, and which method decided): no matcher => the answer is False; otherwise the method is
+    subgraph_is_isomorphic (2) for check_type "induced" and subgraph_is_monomorphic (4) for everything else *)
+Theorem C07_entry_trace :
+  forall vf2b fn o child parent, entry_ok fn o ->
+    (entry_trace fn o child parent = 0%N -> sub_entry vf2b fn o child parent = RB false) /\
+    (entry_trace fn o child parent <> 0%N -> entry_trace fn o child parent = if o_induced o then 2%N else 4%N).
+Proof. exact entry_trace_spec. Qed.
+Print Assumptions C07_entry_trace.
+
+(** find_graph_isomorphism returns None exactly when its verdict (C07_fgi_verdict) is negative, and a returned mapping has exactly the
+    nodes of G1 as keys, once each, and is an isomorphism G1 -> G2: a bijection onto the nodes of G2 preserving adjacency both ways
+    and matched by the node / edge matchers ([iso_map] with G2 as host of [mfun m]; the matchers receive (G1 attrs, G2 attrs) as
+    networkx hands them over, hence [flip2]).  WHICH isomorphism is VF2's choice: the statement holds for every enumeration order. *)
+Theorem C07_fgi_mapping :
+  forall vf2b enum, vf2b_contract vf2b -> enum_contract enum ->
+  forall use_defaults fast dstar dzero done g1 g2, gwf g1 -> gwf g2 ->
+    (fgi_map vf2b enum use_defaults fast dstar dzero done g1 g2 = None <-> fgi vf2b use_defaults fast dstar dzero done g1 g2 = false) /\
+    (forall m, fgi_map vf2b enum use_defaults fast dstar dzero done g1 g2 = Some m ->
+       NoDup (map fst m) /\ (forall u, In u (map fst m) <-> In u (node_ids g1)) /\
+       iso_map (flip2 (fgi_nm use_defaults dstar dzero)) (flip2 (fgi_em use_defaults done)) g2 g1 (mfun m)).
+Proof. exact fgi_map_spec. Qed.
+Print Assumptions C07_fgi_mapping.
+
+(** intermediate values of isomorphic / get_mappings compared on every query: when the recorded _pre_check answer is False the verdict
+    is False / the result list is empty (from any cache state, any VF2) *)
+Theorem C07_engine_traces :
+  forall vf2b enum e i g1 j g2 c,
+    (nth 2 (iso_trace e i g1 j g2 c) 9%N = 0%N -> fst (isomorphic vf2b e i g1 j g2 c) = false) /\
+    (nth 0 (maps_trace e i g1 j g2 c) 9%N = 0%N -> fst (get_mappings vf2b enum e i g1 j g2 c) = []).
+Proof. exact (fun vf2b enum e i g1 j g2 c => conj (iso_trace_verdict vf2b e i g1 j g2 c) (maps_trace_verdict vf2b enum e i g1 j g2 c)). Qed.
+Print Assumptions C07_engine_traces.
+
+(** GraphMatcherEngine.__init__ (what [eng_of], through which every engine of every case is built, evaluates): exactly the
+    case-insensitive spellings of "nx" are accepted (omitted = "nx"; with the mod package absent every other name raises ValueError,
+    code 3), and the engine carries the normalised options — attribute lists given as None or omitted are empty, wl1_filter is a
+    bool (default False), max_mappings defaults to 1 and None means no limit *)
+Theorem C07_engine_ctor :
+  forall r, (r_backend_lower r = s_nx -> eng_ctor r = inl (ctor_fields r)) /\ (r_backend_lower r <> s_nx -> eng_ctor r = inr 3%N).
+Proof. exact eng_ctor_spec. Qed.
+Print Assumptions C07_engine_ctor.
+
+(** ---------------------------------------------------------------- round 5: the common-subgraph helpers of graph_morphism.py
+    (outside the clauses of the property text; modelled, compared and proved because they are built from the same matcher calls)
+
+    Vocabulary (proof/C07_MCCS.v): [reach g s x] = x is reachable from s along edges ([Reach.conn] over [nbrs]);
+    [all_connected g] = every node is reachable from every node; [induced_sub small S] = the subgraph of [small] induced by the
+    node list S; [mccs_pick g1 g2] = (smaller, larger) — graph_1 counts as the smaller one when the node counts are equal. *)
+
+(** maximum_connected_common_subgraph(g1, g2, names, defaults, edge_attribute): the result
+    (a) is the subgraph of the smaller input induced by a duplicate-free set S of its nodes (|S| = number of nodes of the result; the
+        empty graph for S = []),
+    (b) has at most one node or is connected,
+    (c) occurs as an INDUCED subgraph of the larger input under the matchers (selected node labels with defaults equal, edge
+        attribute with default 1 equal),
+    (d) and is maximal: no duplicate-free node set S' of the smaller input whose induced subgraph is connected (or a single node) and
+        occurs in the larger input has more nodes. *)
+Theorem C07_mccs :
+  forall vf2b, vf2b_contract vf2b ->
+  forall names defaults eattr done g1 g2, gwf g1 -> gwf g2 ->
+  let small := fst (mccs_pick g1 g2) in let large := snd (mccs_pick g1 g2) in
+  let nm := mccs_nm names defaults in let em := mccs_em eattr done in
+  let r := mccs vf2b names defaults eattr done g1 g2 in
+  (exists S, NoDup S /\ incl S (node_ids small) /\ r = induced_sub small S /\ n_nodes r = length S) /\
+  (n_nodes r <= 1 \/ all_connected r) /\
+  contained true nm em large r /\
+  (forall S', NoDup S' -> incl S' (node_ids small) ->
+     (n_nodes (induced_sub small S') <= 1 \/ all_connected (induced_sub small S')) ->
+     contained true nm em large (induced_sub small S') -> length S' <= n_nodes r).
+Proof. exact mccs_spec. Qed.
+Print Assumptions C07_mccs.
+
+(** the boolean connectivity test the model evaluates (nx.is_connected on a non-empty candidate) is connectedness *)
+Theorem C07_connected_test :
+  forall g, gwf g -> node_ids g <> [] -> (connected g = true <-> all_connected g).
+Proof. exact connected_spec. Qed.
+Print Assumptions C07_connected_test.
+
+(** heuristics_MCCS: [] raises (None), one graph comes back as it is, two graphs give their mccs, more graphs fold from the left and
+    stop at the first empty intermediate result (any VF2) *)
+Theorem C07_heuristics_mccs :
+  forall vf2b names defaults eattr done,
+  hmccs vf2b names defaults eattr done [] = None /\
+  (forall g, hmccs vf2b names defaults eattr done [g] = Some g) /\
+  (forall g1 g2, hmccs vf2b names defaults eattr done [g1; g2] = Some (mccs vf2b names defaults eattr done g1 g2)) /\
+  (forall g1 g2 g3 r, hmccs vf2b names defaults eattr done (g1 :: g2 :: g3 :: r) =
+     let m := mccs vf2b names defaults eattr done g1 g2 in
+     if Nat.eqb (n_nodes m) 0 then Some m else hmccs vf2b names defaults eattr done (m :: g3 :: r)).
+Proof. exact hmccs_spec. Qed.
+Print Assumptions C07_heuristics_mccs.
